@@ -5,6 +5,7 @@ from __future__ import annotations
 
 import errno
 import os
+import sys
 
 MUTATING = ("create_file", "create_folder", "move", "remove", "write")
 
@@ -37,7 +38,8 @@ class SimFS:
         self.root = os.path.realpath(root)
         self.clock = clock
         self.stamp = stamp
-        self.log = []  # (op, relpath[, relpath2])
+        self.log = []  # forward calls: (op, relpath[, relpath2])
+        self.rollback_log = []  # calls made while an exception is being handled
         self.mut_count = 0
         self.read_count = 0
         self.fault = None
@@ -51,6 +53,7 @@ class SimFS:
         self.mut_count = 0
         self.read_count = 0
         del self.log[:]
+        del self.rollback_log[:]
 
     def disarm(self):
         self.fault = None
@@ -64,8 +67,14 @@ class SimFS:
         return "<outside>/" + os.path.basename(path)
 
     def _enter(self, op, *paths):
-        self.mut_count += 1
         rec = (op,) + tuple(self.rel(p) for p in paths)
+        if sys.exc_info()[0] is not None:
+            # called from inside an exception handler: this is rope's rollback
+            # loop.  Faults inside the rollback itself are outside the fault
+            # model (one fault per call), so such calls are logged, not counted.
+            self.rollback_log.append(rec)
+            return None
+        self.mut_count += 1
         self.log.append(rec)
         f = self.fault
         if f and f["k"] == self.mut_count and f["kind"] in ("before", "after", "torn"):
@@ -140,10 +149,18 @@ class SimFS:
             self._raise(f, "write", None)
 
     def read(self, path):
+        if sys.exc_info()[0] is not None:
+            return self.real.read(path)
         self.read_count += 1
         f = self.fault
         if f and f["kind"] == "read" and f["k"] == self.read_count:
-            self.fired = {"kind": "read", "k": f["k"], "op": "read"}
+            rp = self.rel(path)
+            self.fired = {
+                "kind": "read", "k": f["k"], "op": "read", "path": rp,
+                # the read comes from an observer reacting to a mutation of the
+                # same path that has just been applied (e.g. automatic SOA)
+                "after_apply": bool(self.log) and rp in self.log[-1][1:] and self.log[-1][0] in ("write", "move"),
+            }
             self.fault = None
             raise InjectedFault(errno.EIO, "injected fault (read)")
         return self.real.read(path)
